@@ -96,3 +96,68 @@ pub fn objective(s: &Schedule) -> (i64, i64, i64, i64) {
     let u = s.unserved_passengers();
     ((u.0 + u.1) as i64, s.maintenance_violation(), s.number_of_vehicles() as i64, s.costs() as i64)
 }
+
+/// `schedule_key` with vehicle and dummy ids replaced by their ranks (position in id order among the
+/// real vehicles resp. among the dummies).  New ids are always larger than all existing ones, so two
+/// schedules with the same ranked key have the same futures up to this order-preserving renaming;
+/// unlike the raw key it does not depend on how many ids were burnt on the way.
+pub fn ranked_key(s: &Schedule) -> String {
+    let mut reals: Vec<VehicleIdx> = s.vehicles_iter_all().collect();
+    reals.sort();
+    let mut dums: Vec<VehicleIdx> = s.dummy_iter().collect();
+    dums.sort();
+    let name = |v: VehicleIdx| -> String {
+        if let Ok(i) = reals.binary_search(&v) {
+            format!("v{}", i)
+        } else if let Ok(i) = dums.binary_search(&v) {
+            format!("d{}", i)
+        } else {
+            format!("?{}", v)
+        }
+    };
+    let mut k = String::new();
+    for vt in types(s) {
+        for v in s.vehicles_iter(vt) {
+            let _ = write!(k, "{}:{}[", name(v), vt);
+            for n in tour_nodes(s, v) {
+                let _ = write!(k, "{},", n);
+            }
+            k.push_str("];");
+        }
+    }
+    k.push('|');
+    for d in s.dummy_iter() {
+        let _ = write!(k, "{}[", name(d));
+        for n in tour_nodes(s, d) {
+            let _ = write!(k, "{},", n);
+        }
+        k.push_str("];");
+    }
+    k.push('|');
+    let nw = s.get_network();
+    let mut cov: Vec<NodeIdx> = nw.coverable_nodes().collect();
+    cov.sort();
+    for n in cov {
+        let f = s.train_formation_of(n).ids();
+        if !f.is_empty() {
+            let _ = write!(k, "{}<", n);
+            for v in f {
+                let _ = write!(k, "{},", name(v));
+            }
+            k.push_str(">;");
+        }
+    }
+    k.push('|');
+    for vt in types(s) {
+        let _ = write!(k, "T{}:", vt);
+        for c in s.next_day_transition_of(vt).cycles_iter() {
+            k.push('(');
+            for v in c.iter() {
+                let _ = write!(k, "{},", name(v));
+            }
+            k.push(')');
+        }
+        k.push(';');
+    }
+    k
+}
